@@ -15,6 +15,7 @@ import (
 	"verifharness/c16"
 	"verifharness/c17"
 	"verifharness/c18"
+	"verifharness/c19"
 	"verifharness/c20"
 	"verifharness/wk"
 )
@@ -29,6 +30,7 @@ var runners = map[string]func(*wk.Job, *wk.Worker) error{
 	"c16": c16.Run,
 	"c17": c17.Run,
 	"c18": c18.Run,
+	"c19": c19.Run,
 	"c20": c20.Run,
 }
 
